@@ -97,12 +97,7 @@ pub fn run_c05(p: &mut Prng, t: Tier, i: usize, sink: &mut Sink) {
     }
     // round trip: what the library decrypted is what was encrypted
     for k in 0..nsess {
-        let (m, pt) = (w.slots.get(&format!("s{k}.msg")).cloned(), w.slots.get(&format!("s{k}.pt")).cloned());
-        let key = json!({"entry":"sm2.encrypt+decrypt","class":"round-trip","outcome":"Ok"});
-        let case = crate::world::fnv(&[b"rt", &m.clone().unwrap_or_default(), &(i as u64).to_le_bytes(), &[k as u8]]);
-        w.check("C05", "O5.1-round-trip", m.is_some() && m == pt, case, key, || {
-            format!("decrypt(encrypt(M)) != M: M={} got {:?}", m.as_ref().map(hex::encode).unwrap_or_default(), pt.as_ref().map(hex::encode))
-        });
+        w.exec(json!({"op":"assert.eq","a":format!("s{k}.pt"),"b":format!("s{k}.msg"),"property":"C05","oracle":"O5.1-round-trip","entry":"sm2.encrypt+decrypt","class":"round-trip","what":"decrypt(encrypt(M)) != M"}));
     }
     if i == 2 {
         w.samples.push(json!({"schedule": w.history.iter().take(12).cloned().collect::<Vec<_>>() }));
@@ -117,10 +112,7 @@ fn annex_enc_session(w: &mut World) {
     w.exec(json!({"op":"sm2.derive_pk","impl":"lib","d":"annex.d","pk":"annex.pk","comp":false}));
     w.exec(set("annex.msg", b"encryption standard"));
     w.exec(enc_op("annex", "lib", "C1C3C2", false, "new", json!({"c":[k],"f":1})));
-    let want = hex::decode("0404EBFC718E8D1798620432268E77FEB6415E2EDE0E073C0F4F640ECD2E149A73E858F9D81E5430A57B36DAAB8F950A3C64E6EE6A63094D99283AFF767E124DF059983C18F809E262923C53AEC295D30383B54E39D609D160AFCB1908D0BD876621886CA989CA9C7D58087307CA93092D651EFA").unwrap();
-    let got = w.slots.get("annex.ct").cloned().unwrap_or_default();
-    let key = json!({"entry":"sm2.encrypt","class":"annex-example","outcome":"Ok"});
-    w.check("C05", "annex-example", got == want, 0xA22F, key, || format!("GM/T 0003.5 Annex A ciphertext: got {}", hex::encode(&got)));
+    w.exec(json!({"op":"assert.eq","a":"annex.ct","hex":"0404ebfc718e8d1798620432268e77feb6415e2ede0e073c0f4f640ecd2e149a73e858f9d81e5430a57b36daab8f950a3c64e6ee6a63094d99283aff767e124df059983c18f809e262923c53aec295d30383b54e39d609d160afcb1908d0bd876621886ca989ca9c7d58087307ca93092d651efa","property":"C05","oracle":"annex-example","entry":"sm2.encrypt","class":"annex-example","what":"GM/T 0003.5 Annex A ciphertext"}));
     w.exec(dec_op("annex", "C1C3C2", false));
 }
 
